@@ -443,7 +443,9 @@ def minimize_lbfgsb(
     # scale the initial gradient and consequently the objective function
     # this is optional and needs to be investigated and documented.
     if gradient_scaler is not None:
-        sf.scaling_factor = gradient_scaler(x, grad, lb, ub)
+        # a plain float: a numpy float32 (or integer) scalar would make the scaled
+        # values be computed in that type
+        sf.scaling_factor = float(gradient_scaler(x, grad, lb, ub))
 
         if logger is not None:
             logger.info(f"scaling factor = {sf.scaling_factor:.2e}")
